@@ -122,6 +122,15 @@ def run(chk, tier, seed):
         chk.violations.append((what, {"input": D.describe(U, m), "harness_line": [l for l in lines if l.startswith(cid + " ")][0], "observed": obs.get(cid, "")[:400]}))
     chk.add_eval(len(meta))
     chk.cov["packed_yes_answers"] = npacked
+    # generic instantiations (hand-written: the generated universe has no generic definitions): an explicit-repr enum /
+    # repr(C) struct holding the same generic wrapper with a bulk-copyable and a not bulk-copyable payload must not be
+    # declared packed, and must write exactly what its field-by-field twin writes
+    go = C.run_harness(binary, ["g generic_packed"]).get("g", "MISSING")
+    for ent in go.split(" ; "):
+        if "packed=0 vec_same=1 single_same=1 loads_as_twin=1" not in ent:
+            chk.violations.append(("generic instantiation case: the packed fast path is taken for a type with a non-packable field, or its bytes differ from the field-by-field encoding: " + ent[:120],
+                                   {"harness_line": "g generic_packed", "observed": go[:600]}))
+    chk.add_eval(6)
     chk.cov["rule"] = ("for every root type: real repr_c_optimization_safe(v) for several v against packed v t (layouts probed from the real compilation); "
                        "real bytes of every value against the implementation model impl_enc and against the field-by-field encoding; determinism of two saves; "
                        "distinct = (structural type key, version, answer)")
